@@ -32,16 +32,16 @@ SPACE = len(VERSIONS) * len(NAMES) * len(WORKSPACES) * 2 * len(NJOBS) * 2
 
 class Engine(EngineBase):
     def budget(self, tier):
-        return (SPACE // 4, 50.0) if tier == "quick" else (SPACE * 3, 900.0)
+        return (SPACE, 55.0) if tier == "quick" else (SPACE * 10, 900.0)
 
     def rule(self):
         return (f"configurations enumerated by mixed radix over the run index (product of {SPACE}: 6 versions x 6 "
                 "names x 4 workspace settings x legacy files x 4 job counts x project document); state points, "
-                "listing order and chunking drawn from the seed. thorough walks the product 3 times, quick a "
-                "quarter of it. distinct = configuration tuples; non-trivial = a refusal or a migration was checked")
+                "listing order and chunking drawn from the seed. both tiers walk the whole product (quick once, thorough ten times with different "
+                "seeds for state points, listing order and chunking). distinct = configuration tuples; non-trivial = a refusal or a migration was checked")
 
     def generate_indexed(self, index, rng, tier):
-        i = index + (rng.randrange(SPACE) if tier == "quick" else 0)
+        i = index
         i %= SPACE
         cfg = {}
         for key, vals in (("version", VERSIONS), ("name", NAMES), ("workspace", WORKSPACES),
